@@ -34,6 +34,24 @@ def run(tier):
             steps.append({"op": "names"})
             jobs.append({"cfg": {"prefixes": ["p/"]}, "steps": steps})
             meta.append((vi, [n for n, _ in tpls]))
+    # include graphs with several include edges per template (MC_IncGraph): diamonds, back edges behind explored siblings
+    nn = 3 if tier == "quick" else 4
+    with open(vp.SPEC + "/MC_IncGraph_run.cfg", "w") as f:
+        f.write(open(vp.SPEC + "/MC_IncGraph.cfg").read().replace("N = 3", "N = %d" % nn))
+    ri = vp.tlc("MC_IncGraph", "MC_IncGraph_run", workers=6, timeout=6000, name="c11-inc", xmx="24g")
+    C.add_tlc(ri, "MC_IncGraph N=%d (sets of include targets per template)" % nn)
+    ivecs = ri.tags["VEC"]
+    for ii, v in enumerate(ivecs):
+        tpls = [[n, "L" + n + ";" + "".join("{% include '" + t + "' %}" for t in ts)] for n, ts in sorted(v["g"].items())]
+        # also with the includes inside a block and inside an if, which must not hide them from the cycle check
+        tpls2 = [[n, "L" + n + ";{% block k %}{% if true %}" + "".join("{% include '" + t + "' %}" for t in ts) + "{% endif %}{% endblock %}"] for n, ts in sorted(v["g"].items())]
+        for order in (tpls, list(reversed(tpls)), tpls2):
+            steps = [{"op": "add", "tpls": order}]
+            if v["ok"]:
+                steps += [{"op": "render", "name": n} for n, _ in sorted(order)]
+            steps.append({"op": "names"})
+            jobs.append({"cfg": {}, "steps": steps})
+            meta.append((-2 - ii, [n for n, _ in sorted(order)]))
     # explicit deep chains (depth 32): extends, include, include inside a component inside an include
     deep = []
     ext = [["t0", "L{% block a %}0{% endblock %}"]] + [["t%d" % i, "{%% extends 't%d' %%}{%% block a %%}%d{{ super() }}{%% endblock %%}" % (i - 1, i)] for i in range(1, 33)]
@@ -45,6 +63,23 @@ def run(tier):
     res = vp.run_jobs(jobs, tag="c11", timeout=3000, may_abort=True)
     for (vi, names), rr, job in zip(meta, res, jobs):
         C.count()
+        if vi <= -2:
+            v = ivecs[-2 - vi]
+            C.nontrivial(["inc", v["g"]])
+            key = {"include_graph": v["g"]}
+            if any(x.get("panic") or x.get("abort") for x in rr):
+                C.violation(dict(key, kind="abort"), "process died / panicked on include graph %s: %s" % (v["g"], [x for x in rr if x.get("panic") or x.get("abort")][:1]), {"job": job, "result": rr})
+            elif rr[0].get("ok") != v["ok"]:
+                C.violation(dict(key, kind="acceptance"), "include graph %s: engine %s, specification %s" % (v["g"], "accepts" if rr[0].get("ok") else "refuses (%s)" % rr[0].get("kind"),
+                                                                                                           "accepts (acyclic)" if v["ok"] else "refuses (cyclic)"), {"job": job, "got": rr[0]})
+            elif not v["ok"]:
+                if rr[0].get("kind") != "CircularInclude" or rr[-1].get("names"):
+                    C.violation(dict(key, kind="class"), "cyclic include graph %s refused with %s, templates left: %s" % (v["g"], rr[0].get("kind"), rr[-1].get("names")), {"job": job})
+            else:
+                for n, x in zip(names, rr[1:]):
+                    if not x.get("ok") or x.get("out") != v["text"][n]:
+                        C.violation(dict(key, kind="text", tpl=n), "include graph %s: render of %s gives %r, specification %r" % (v["g"], n, x.get("out") if x.get("ok") else x.get("kind"), v["text"][n]), {"job": job})
+            continue
         if vi < 0:
             C.nontrivial(names)
             if not all(x.get("ok") for x in rr):
